@@ -772,6 +772,8 @@ def rule_device_paths(ck):
 
 
 def run(ck):
+    from . import c18 as _c18
+    ck.run_rule("G5.memo", "the list of requested outputs belongs to one assembly: no class-level or memoised container carries make_* requests into the next one", 40, _c18.rule_memo)
     ck.run_rule("C13.R10", "emit_files writes each output with its own format, arguments and path", 5, rule_R10)
     ck.run_rule("C13.R1", "bin/raw layouts; format registry and its users", 8, rule_R1)
     ck.run_rule("C13.R2", "RIFF header slots", 6, rule_R2)
